@@ -626,6 +626,7 @@ var shapeFuncs = []struct{ pkg, recv, name string }{
 	{"tubes", "Unreliable", "initiate"},
 	{"tubes", "Reliable", "initiate"},
 	{"transport", "Client", "clientHandshakeLocked"},
+	{"tubes", "Muxer", "sender"},
 }
 
 func recvName(fd *ast.FuncDecl) string {
